@@ -6,5 +6,6 @@ export GOFLAGS=-mod=mod GOPROXY=off GOSUMDB=off GOTOOLCHAIN=local
 cp /repo/go.sum harness/go.sum
 mkdir -p evidence replays build
 (cd harness && go build -tags verif -o bin/vcheck ./cmd/vcheck)
+harness/bin/vcheck -extract
 (cd lean && lake build)
 echo "setup ok"
